@@ -353,12 +353,16 @@ def r_schema(ctx, model):
     schema = json.loads(sp_.read_text())
     w = Where("cij/data/schema/config.schema.json", "", 0)
     ctx.fn("cij/data/schema/config.schema.json")
+    # the dialect is the one jsonschema.validate() selects for this schema (its "$schema" entry, the newest draft when there is none): the meaning of
+    # a keyword next to "$ref", for one, depends on it
+    cls = jsonschema.validators.validator_for(schema)
+    ctx.libfact(f"jsonschema.validators.validator_for(packaged schema) = {cls.__name__}")
     try:
-        jsonschema.Draft7Validator.check_schema(schema)
+        cls.check_schema(schema)
     except Exception as e:
         ctx.violation("schema.invalid", w, "a valid JSON schema", str(e)[:200], "the packaged schema is not a valid JSON schema")
         return
-    v = jsonschema.Draft7Validator(schema)
+    v = cls(schema)
     valid = {"qha": {"input": "input01", "settings": {"NT": 16, "DT": 100, "T_MIN": 0, "NTV": 81, "P_MIN": 0, "DELTA_P": 1, "volume_ratio": 1.2, "order": 3}},
              "elast": {"input": "elast.dat", "settings": {"mode_gamma": {"interpolator": "lsq_poly", "order": 3},
                                                            "symmetry": {"system": "cubic", "ignore_rank": False, "ignore_residuals": False,
